@@ -152,7 +152,7 @@ def execute(case, tape):
     return out
 
 
-BUDGET = {"quick": (30000, 60), "thorough": (600000, 900)}
+BUDGET = {"quick": (90000, 75), "thorough": (1800000, 1500)}
 REAL = ["pydcop.dcop.relations (find_optimal, find_arg_optimal, optimal_cost_value, projection)",
         "pydcop.algorithms.dsa", "pydcop.algorithms.dsatuto", "pydcop.algorithms.adsa",
         "pydcop.algorithms.mgm", "pydcop.algorithms.dpop", "pydcop.infrastructure.computations"]
